@@ -53,7 +53,9 @@ def gen_steps(rng, cfg, pfx, modname):
         forms = list(cfg.forms)
         if helpers:
             forms += ['callhelper', 'callhelper_expr']
-        if rng.random() < cfg.p_helper:
+        if rng.random() < cfg.p_say:
+            form = 'say'
+        elif rng.random() < cfg.p_helper:
             form = rng.choice(['defhelper', 'defemit'])
         elif cfg.async_forms and rng.random() < cfg.p_async:
             form = rng.choice(cfg.async_forms)
